@@ -368,6 +368,9 @@ class SimplifySymbolNames:
     def __mutate_symbol(self, symbol, input_):
         """Return a list of mutations of input_ based on simpler versions of
         symbol."""
+        if symbol.is_leaf() and symbol.data.startswith(';'):
+            # a comment inside the declaration, not a name
+            return
         if is_piped_symbol(symbol):
             for s in self.__simpler(get_piped_symbol(symbol)):
                 if not is_var(Node('|' + s + '|')):
